@@ -27,6 +27,10 @@ ENVQ = CORE + 'Environment'
 def run(cx: Cx):
     check_has_all(cx, CORE + 'Agent.has_component', 'components')
     _rest(cx)
+    # the rules above speak for every environment of the package only if its subclasses (the spatial worlds) do not override the queries
+    from .common import check_overrides_forward
+    check_overrides_forward(cx, ENVQ, ['get_agents', 'get_random_agent', 'shuffle'])
+    check_overrides_forward(cx, CORE + 'Agent', ['has_component'])
     from .common import include_premises
     include_premises(cx, ['C20'], 'filtering by tag is exact only if an agent carries the tag it was given (tag 0 included)',
                      only=lambda o: 'Agent.__init__' in o.function)
